@@ -250,10 +250,10 @@ func BoolGuard(want bool, pred func(f *Flow, call *ast.CallExpr) bool) PassEdge 
 }
 
 // FactGuard: the edge carries an atomic fact accepted by pred.
-func FactGuard(pred func(f *Flow, b *cfg.Block, fact Fact) bool) PassEdge {
+func FactGuard(pred func(f *Flow, fact Fact) bool) PassEdge {
 	return func(f *Flow, b *cfg.Block, i int) bool {
 		for _, fact := range f.EdgeFacts(b, i) {
-			if pred(f, b, fact) {
+			if pred(f, fact) {
 				return true
 			}
 		}
